@@ -313,7 +313,8 @@ def unit_finish(U):
 def unit_route(U, prefix="C03"):
     """create_db picks the importer by the dialect's fmt / force_gff, default id_spec per format, custom keys forwarded"""
     for fmt, force_gff, custom, flags in (("gtf", False, False, None), ("gtf", False, True, None), ("gtf", True, False, None), ("gff3", False, False, None),
-                                          ("gtf", False, False, (True, False)), ("gtf", False, False, (False, True))):
+                                          ("gtf", False, False, (True, False)), ("gtf", False, False, (False, True)),
+                                          ("gtf", False, False, "dialect"), ("gff3", False, False, "dialect")):
         it = Interp()
 
         def run(ctx, fmt=fmt, force_gff=force_gff, custom=custom, flags=flags):
@@ -339,7 +340,13 @@ def unit_route(U, prefix="C03"):
             kw = {"force_gff": force_gff}
             if custom:
                 kw.update(gtf_transcript_key="tx", gtf_gene_key="gn", gtf_subfeature="CDS", id_spec={"gene": "gn"})
-            if flags is not None:
+            given = None
+            if flags == "dialect":
+                # an explicitly supplied dialect (unlike anything inference would produce) is the one the lines are parsed with
+                given = dict(constants.dialect, fmt=fmt, **{"field separator": " | ", "order": ["zz"]})
+                kw["dialect"] = given
+                ctx.stash["given"] = given
+            elif flags is not None:
                 kw.update(disable_infer_genes=flags[0], disable_infer_transcripts=flags[1])
             it.call(C.create_db, ["/ghost/in.gff", "/ghost/out.db"], kw)
             return made
@@ -354,11 +361,26 @@ def unit_route(U, prefix="C03"):
                     ok = c.name == "gff" and c.kw.get("id_spec") == "ID"
                 ok = ok and c.kw.get("checklines") == 0 and isinstance(c.kw.get("data"), IT._BaseIterator) and c.kw.get("dialect", {}).get("fmt") == fmt
                 # the two switches reach the importer as the caller gave them (default: both off), whatever the lines look like
-                want = flags or (False, False)
+                want = flags if isinstance(flags, tuple) else (False, False)
                 ok = ok and c.kw.get("disable_infer_genes", False) is want[0] and c.kw.get("disable_infer_transcripts", False) is want[1]
-            def replay(m, fmt=fmt, force_gff=force_gff, custom=custom):
+                if flags == "dialect":
+                    g = p.ctx.stash.get("given")
+                    ok = ok and c.kw.get("dialect") == g and getattr(c.kw.get("data"), "dialect", None) == g
+            def replay(m, fmt=fmt, force_gff=force_gff, custom=custom, flags=flags):
                 if custom:
                     return {"violates": False, "note": "custom keys: no native replay"}
+                if flags == "dialect":
+                    # one attribute per line: separator, repeated keys and key order are not observable, only the given dialect says them
+                    import warnings
+                    text = ('c\ts\texon\t5\t20\t.\t+\t.\tgene_id "G1";\n' if fmt == "gtf" else "c\ts\tgene\t1\t90\t.\t+\t.\tID=G1\n")
+                    D = dict(constants.dialect, fmt=fmt)
+                    D.update({"field separator": " ; ", "repeated keys": True, "order": ["zz", "gene_id", "ID"], "trailing semicolon": fmt == "gtf",
+                              "keyval separator": " " if fmt == "gtf" else "=", "quoted GFF2 values": fmt == "gtf"})
+                    with warnings.catch_warnings():
+                        warnings.simplefilter("ignore")
+                        db = gffutils.create_db(text, ":memory:", from_string=True, dialect=dict(D, order=list(D["order"])))
+                    got = dict(db.dialect)
+                    return {"inputs": {"text": text, "dialect": D}, "expected": D, "observed": got, "violates": got != D}
                 if fmt == "gtf":
                     text = 'c\ts\tgene\t1\t90\t.\t+\t.\tgene_id "G1";\nc\ts\ttranscript\t1\t90\t.\t+\t.\tgene_id "G1"; transcript_id "T1";\nc\ts\texon\t5\t20\t.\t+\t.\tgene_id "G1"; transcript_id "T1";\n'
                     exp = ["exon_1", "gene_1", "transcript_1"] if force_gff else ["G1", "T1", "exon_1"]
@@ -380,8 +402,8 @@ def unit_route(U, prefix="C03"):
                         db = gffutils.create_db(text, ":memory:", from_string=True)
                     got = sorted(f.id for f in db.all_features())
                 return {"inputs": {"text": text, "force_gff": force_gff}, "expected": exp, "observed": got, "violates": got != exp}
-            U.prove("%s.create_db.route[%s,force_gff=%s,custom=%s%s]#p%d" % (prefix, fmt, force_gff, custom, "" if flags is None else ",disable=%s/%s" % flags, p.index),
-                    "the GTF importer is used iff the dialect's fmt is 'gtf' and not force_gff, with the default id_spec {gene: gene_id, transcript: transcript_id} (GFF3: 'ID'), the custom keys/subfeature forwarded and disable_infer_genes / disable_infer_transcripts passed on exactly as given (default off)",
+            U.prove("%s.create_db.route[%s,force_gff=%s,custom=%s%s]#p%d" % (prefix, fmt, force_gff, custom, "" if flags is None else (",dialect=given" if flags == "dialect" else ",disable=%s/%s" % flags), p.index),
+                    "the GTF importer is used iff the dialect's fmt is 'gtf' and not force_gff, with the default id_spec {gene: gene_id, transcript: transcript_id} (GFF3: 'ID'), the custom keys/subfeature forwarded and disable_infer_genes / disable_infer_transcripts passed on exactly as given (default off); a dialect given explicitly is the dialect of the iterator that parses the lines and of the importer",
                     [], z3.BoolVal(bool(ok)), {}, replay=replay)
 
 
@@ -481,7 +503,52 @@ def unit_finish_collision(U):
                     [], z3.BoolVal(len(ins) == 1 and not dels), {}, replay=replay)
 
 
-UNITS = [("block", unit_block), ("finish", unit_finish), ("finish_collision", unit_finish_collision), ("route", unit_route), ("driving_query", unit_driving_query)]
+def unit_gtf_init(U):
+    """the GTF importer keeps the custom keys and the subfeature type exactly as given (they are compared with attribute keys and
+    with the featuretype column as they stand): _GTFDBCreator.__init__ with symbolic strings stores those very strings"""
+    _unit_gtf_init1(U, "symbolic")
+
+
+def unit_gtf_init_awkward(U):
+    """the same clause on concrete strings that any folding / trimming / normalising would change (decides also where the
+    symbolic run is beyond the string models)"""
+    _unit_gtf_init1(U, "awkward")
+
+
+def _unit_gtf_init1(U, variant):
+    it = Interp()
+    if variant == "symbolic":
+        tk, gk, sf = (SStr([Val(z3.String(n), nonempty=True)]) for n in ("transcript_key", "gene_key", "subfeature"))
+    else:
+        # concrete strings that any folding / trimming / normalising would change
+        tk, gk, sf = "Isoform_ID ", " Locus Tag", "CDS\u00c9 "
+
+    def run(ctx):
+        it.contracts[IT.DataIterator] = lambda interp, a, k: ("iterator", k)
+        cr = object.__new__(C._GTFDBCreator)
+        it.call(C._GTFDBCreator.__init__, [cr, "<data>", ghostdb.GhostConn()], {"transcript_key": tk, "gene_key": gk, "subfeature": sf, "id_spec": {"gene": "gn"}})
+        return cr
+
+    def replay(m):
+        text = ('c\ts\tCDS\t5\t20\t.\t+\t0\tlocus "G1"; isoform "T1";\nc\ts\tCDS\t30\t40\t.\t+\t0\tlocus "G1"; isoform "T1";\n'
+                'c\ts\texon\t1\t50\t.\t+\t.\tlocus "G1"; isoform "T1";\n')
+        import warnings
+        with warnings.catch_warnings():
+            warnings.simplefilter("ignore")
+            db = gffutils.create_db(text, ":memory:", from_string=True, gtf_transcript_key="isoform", gtf_gene_key="locus", gtf_subfeature="CDS",
+                                    id_spec={"gene": "locus", "transcript": "isoform"})
+        got = sorted((f.id, f.featuretype, f.start, f.end) for f in db.all_features() if f.featuretype in ("gene", "transcript"))
+        exp = [("G1", "gene", 5, 40), ("T1", "transcript", 5, 40)]
+        return {"inputs": {"text": text, "gtf_subfeature": "CDS", "gtf_gene_key": "locus", "gtf_transcript_key": "isoform"}, "expected": exp, "observed": got, "violates": got != exp}
+    for p in U.explore(run, it):
+        ok = p.kind == "return"
+        if ok:
+            cr = p.value
+            ok = getattr(cr, "transcript_key", None) is tk and getattr(cr, "gene_key", None) is gk and getattr(cr, "subfeature", None) is sf and cr.id_spec == {"gene": "gn"}
+        U.prove("C03.gtf.init.keys[%s]#p%d" % (variant, p.index), "transcript_key, gene_key and subfeature are stored as given (no case folding, stripping or defaulting), id_spec as given", [], z3.BoolVal(bool(ok)), {}, replay=replay)
+
+
+UNITS = [("gtf.init", unit_gtf_init), ("gtf.init.awkward", unit_gtf_init_awkward), ("block", unit_block), ("finish", unit_finish), ("finish_collision", unit_finish_collision), ("route", unit_route), ("driving_query", unit_driving_query)]
 try:
     from standins import C03 as _S
     UNITS = UNITS + list(_S.UNITS)
